@@ -8,11 +8,12 @@ Section S.
   Variable pmatch : string -> string -> pres.
   Variable uparse : string -> option purl.
   Variable default_uri : string.
+  Variable ts : tsfr.
   Variable cs : list lclient.
 
   Notation validate_post := (validate_post pmatch).
   Notation validate_end_session := (validate_end_session pmatch uparse default_uri cs).
-  Notation end_session := (end_session pmatch uparse default_uri cs).
+  Notation end_session := (end_session pmatch uparse default_uri ts cs).
   Notation registered_post := (registered_post pmatch).
   Notation reaches := (reaches uparse).
 
@@ -109,12 +110,24 @@ Section S.
         apply Hgen. right. split; [intro E; rewrite E in Eu; discriminate|]. auto.
   Qed.
 
+  (* the storage's own choice through the optional TerminateSessionFromRequest *)
+  Definition StorageChoice (loc : string) : Prop := ts = TS_Fixed loc.
+
+  Lemma finish_redirect st q user sc target loc user' sc' :
+    finish ts st q user sc target = ERedirect loc (user', sc') ->
+    user' = user /\ sc' = sc /\ (loc = target \/ StorageChoice loc).
+  Proof.
+    unfold finish, StorageChoice. destruct ts; try destruct (terminate_fails q); try discriminate;
+      intro H; inversion H; auto.
+  Qed.
+
   Lemma end_session_redirect r q loc user sc :
-    end_session r q = ERedirect loc (user, sc) -> validate_end_session q = inr (user, sc, loc).
+    end_session r q = ERedirect loc (user, sc) ->
+    exists t, validate_end_session q = inr (user, sc, t) /\ (loc = t \/ StorageChoice loc).
   Proof.
     destruct r; cbn [C18_Session.end_session]; unfold end_session_provider, end_session_legacy;
       destruct (validate_end_session q) as [[]|[[u s] t]]; try discriminate;
-      destruct (terminate_fails q); try discriminate; intro H; inversion H; reflexivity.
+      intro H; apply finish_redirect in H as [-> [-> H]]; eauto.
   Qed.
 
   Lemma proven_client_of q user pc : proven q = inr (user, pc) ->
@@ -129,12 +142,14 @@ Section S.
 
   Theorem redirect_registered r q loc user sc :
     end_session r q = ERedirect loc (user, sc) ->
+    StorageChoice loc \/
     exists u, target_of q u loc /\
       (u = default_uri \/
        (u = e_uri q /\ e_uri q <> "" /\
         exists c, proven_client q = Some sc /\ find_lclient cs sc = Some c /\ RegisteredPost c u)).
   Proof.
-    intro H. apply end_session_redirect, validate_shape in H as [pc [u [Hp [Hb Ht]]]].
+    intro H. apply end_session_redirect in H as [t [H [->|Hs]]]; [|left; exact Hs]. right.
+    apply validate_shape in H as [pc [u [Hp [Hb Ht]]]].
     exists u. split; [assumption|].
     destruct Hb as [[_ [_ ->]]|[_ [c [Hc [-> [[_ ->]|[Hne [-> Hv]]]]]]]]; auto.
     right. repeat split; auto. exists c. apply proven_client_of in Hp as [Hp _].
@@ -172,22 +187,25 @@ Section S.
       apply proven_client_of in Hp as [Hp [Hu _]]. split; [assumption|].
       destruct Hb as [[-> [-> _]]|[_ [c [_ [-> _]]]]]; assumption. }
     split.
-    - intros loc user sc H. eapply G, end_session_redirect, H.
+    - intros loc user sc H. apply end_session_redirect in H as [t [H _]]. eapply G, H.
     - intros s c user sc.
       destruct r; cbn [C18_Session.end_session]; unfold end_session_provider, end_session_legacy;
         destruct (validate_end_session q) as [[]|[[u s'] t]] eqn:Ev; try discriminate;
-        destruct (terminate_fails q); try discriminate; intro H; inversion H; subst; eapply G; eauto.
+        unfold finish; destruct ts; try destruct (terminate_fails q); try discriminate;
+        intro H; inversion H; subst; eapply G; eauto.
   Qed.
 
   Theorem state_appended r q loc t :
     end_session r q = ERedirect loc t -> e_state q <> "" ->
+    StorageChoice loc \/
     exists u p qs,
       uparse u = Some p /\
       loc = p_pre p +++ "?" +++ qs +++ match p_frag p with Some f => "#" +++ f | None => "" end /\
       parse_query qs = Some (p_le p ++ ("state", e_state q) :: p_gt p).
   Proof.
     destruct t as [user sc]. intros H Hs.
-    apply end_session_redirect, validate_shape in H as [pc [u [_ [_ [[E _]|[_ [p [Hu ->]]]]]]]]; [contradiction|].
+    apply end_session_redirect in H as [t [H [->|Hc]]]; [|left; exact Hc]. right.
+    apply validate_shape in H as [pc [u [_ [_ [[E _]|[_ [p [Hu ->]]]]]]]]; [contradiction|].
     exists u, p, (encode_query (p_le p ++ ("state", e_state q) :: p_gt p)).
     split; [assumption|]. split; [reflexivity|]. apply parse_encode_query.
   Qed.
@@ -215,69 +233,110 @@ Section S.
         apply in_or_app. right. left. reflexivity.
   Qed.
 
-  Lemma spec_redirect q loc user sc :
-    validate_end_session q = inr (user, sc, loc) ->
-    spec_out pmatch uparse default_uri cs q (ERedirect loc (user, sc)) = true.
+  Lemma spec_redirect q t loc user sc :
+    validate_end_session q = inr (user, sc, t) -> loc = t \/ StorageChoice loc ->
+    spec_out pmatch uparse default_uri ts cs q (ERedirect loc (user, sc)) = true.
   Proof.
-    intro H. apply validate_shape in H as [pc [u [Hp [Hb Ht]]]].
+    intros H Hl. apply validate_shape in H as [pc [u [Hp [Hb Ht]]]].
     apply proven_client_of in Hp as [Hpc [Hu Hc]].
     cbn [spec_out]. rewrite Hpc, Hc. cbn [negb andb].
-    pose proof (reaches_target q u loc Ht) as Hr.
-    destruct Hb as [[-> [-> ->]]|[Hne [c [Hf [-> [[_ ->]|[Hnu [-> Hv]]]]]]]].
-    - rewrite Hr. cbn. rewrite Hu, !String.eqb_refl. reflexivity.
-    - rewrite Hr. cbn. rewrite Hu, !String.eqb_refl. reflexivity.
+    assert (Hsc : sc = pc) by (destruct Hb as [[-> [-> _]]|[_ [c [_ [-> _]]]]]; reflexivity).
+    subst sc. rewrite Hu, !String.eqb_refl, !andb_true_r.
+    destruct Hl as [->|Hs].
+    2:{ unfold storage_choice. unfold StorageChoice in Hs. rewrite Hs, String.eqb_refl. reflexivity. }
+    pose proof (reaches_target q u t Ht) as Hr.
+    destruct Hb as [[_ [_ ->]]|[Hne [c [Hf [_ [[_ ->]|[Hnu [-> Hv]]]]]]]].
+    - rewrite Hr, orb_true_r. reflexivity.
+    - rewrite Hr, orb_true_r. reflexivity.
     - rewrite Hf, Hr, (validate_post_registered c _ Hv).
       destruct (String.eqb (e_uri q) "") eqn:E; [apply String.eqb_eq in E; contradiction|].
-      cbn. rewrite orb_true_r, Hu, !String.eqb_refl. reflexivity.
+      cbn. apply orb_true_r.
   Qed.
 
   Lemma must_accept_validates q :
-    must_accept uparse default_uri cs q = true ->
-    exists user sc loc, validate_end_session q = inr (user, sc, loc) /\ terminate_fails q = false.
+    must_accept uparse default_uri ts cs q = true ->
+    exists user sc loc, validate_end_session q = inr (user, sc, loc) /\ terminate_fails q = false /\ ts <> TS_Err.
   Proof.
     unfold must_accept, C18_Session.validate_end_session, proven, contradicts, terminate_fails.
-    destruct (e_hint q) as [|ex sub azp|]; try discriminate.
-    destruct (e_fault q); try discriminate.
-    destruct (negb (String.eqb (e_client q) "") && negb (String.eqb (e_client q) azp)); [discriminate|].
-    cbn [negb andb lookup].
-    destruct (String.eqb azp "").
-    - destruct (String.eqb (e_state q) ""); cbn [orb]; [eauto|].
-      destruct (uparse default_uri); [eauto|discriminate].
-    - destruct (find_lclient cs azp) as [c|]; [|discriminate].
-      destruct (String.eqb (e_uri q) "").
-      + destruct (String.eqb (e_state q) ""); cbn [orb]; [eauto|].
-        destruct (uparse default_uri); [eauto|discriminate].
-      + unfold C18_Session.validate_post. destruct (string_in (e_uri q) (l_post c)); [|discriminate].
-        destruct (String.eqb (e_state q) ""); cbn [orb]; [eauto|].
-        destruct (uparse (e_uri q)); [eauto|discriminate].
+    assert (F : forall (u s l : string) (A : verr + string * string * string),
+              A = inr (u, s, l) -> ts <> TS_Err ->
+              exists user sc loc, A = inr (user, sc, loc) /\ false = false /\ ts <> TS_Err)
+      by (intros; eauto 8).
+    destruct ts eqn:Ets; try discriminate;
+    (destruct (e_hint q) as [|ex sub azp|]; try discriminate;
+     destruct (e_fault q); try discriminate;
+     destruct (negb (String.eqb (e_client q) "") && negb (String.eqb (e_client q) azp)); [discriminate|];
+     cbn [negb andb lookup];
+     destruct (String.eqb azp "");
+     [ destruct (String.eqb (e_state q) ""); cbn [orb];
+       [ intros _; eapply F; [reflexivity|discriminate]
+       | destruct (uparse default_uri); [intros _; eapply F; [reflexivity|discriminate] | discriminate] ]
+     | destruct (find_lclient cs azp) as [c|]; [|discriminate];
+       destruct (String.eqb (e_uri q) "");
+       [ destruct (String.eqb (e_state q) ""); cbn [orb];
+         [ intros _; eapply F; [reflexivity|discriminate]
+         | destruct (uparse default_uri); [intros _; eapply F; [reflexivity|discriminate] | discriminate] ]
+       | unfold C18_Session.validate_post; destruct (string_in (e_uri q) (l_post c)); [|discriminate];
+         destruct (String.eqb (e_state q) ""); cbn [orb];
+         [ intros _; eapply F; [reflexivity|discriminate]
+         | destruct (uparse (e_uri q)); [intros _; eapply F; [reflexivity|discriminate] | discriminate] ] ] ]).
   Qed.
 
-  Theorem spec_out_model r q : spec_out pmatch uparse default_uri cs q (end_session r q) = true.
+  Lemma spec_finish st q user sc t :
+    validate_end_session q = inr (user, sc, t) ->
+    (must_accept uparse default_uri ts cs q = true -> terminate_fails q = false /\ ts <> TS_Err) ->
+    spec_out pmatch uparse default_uri ts cs q (finish ts st q user sc t) = true.
   Proof.
-    destruct (must_accept uparse default_uri cs q) eqn:Em.
-    - apply must_accept_validates in Em as [user [sc [loc [Hv Ht]]]].
-      destruct r; cbn [C18_Session.end_session]; unfold end_session_provider, end_session_legacy;
-        rewrite Hv, Ht; apply spec_redirect, Hv.
-    - destruct r; cbn [C18_Session.end_session]; unfold end_session_provider, end_session_legacy;
-        destruct (validate_end_session q) as [[]|[[u s] t]] eqn:Ev; cbn [spec_out]; rewrite ?Em; try reflexivity;
-        destruct (terminate_fails q); cbn [spec_out]; rewrite ?Em; try reflexivity; apply spec_redirect, Ev.
+    intros Hv Hm. unfold finish. destruct ts as [| |l|] eqn:Ets; cbn iota.
+    - destruct (terminate_fails q) eqn:Et.
+      + cbn [spec_out]. destruct (must_accept uparse default_uri TS_Absent cs q); [|reflexivity].
+        destruct (Hm eq_refl) as [H _]. discriminate.
+      + rewrite <- Ets. eapply spec_redirect; eauto.
+    - rewrite <- Ets. eapply spec_redirect; eauto.
+    - rewrite <- Ets. eapply spec_redirect; eauto.
+    - cbn [spec_out]. destruct (must_accept uparse default_uri TS_Err cs q); [|reflexivity].
+      destruct (Hm eq_refl) as [_ H]. contradiction.
+  Qed.
+
+  Theorem spec_out_model r q : spec_out pmatch uparse default_uri ts cs q (end_session r q) = true.
+  Proof.
+    assert (Hm : forall user sc t, validate_end_session q = inr (user, sc, t) ->
+                 must_accept uparse default_uri ts cs q = true -> terminate_fails q = false /\ ts <> TS_Err).
+    { intros user sc t _ H. apply must_accept_validates in H as [_ [_ [_ [_ H]]]]. exact H. }
+    destruct r; cbn [C18_Session.end_session]; unfold end_session_provider, end_session_legacy;
+      destruct (validate_end_session q) as [[]|[[u s] t]] eqn:Ev.
+    all: try (apply spec_finish; [exact Ev | eapply Hm; reflexivity]).
+    all: cbn [spec_out]; destruct (must_accept uparse default_uri ts cs q) eqn:Em; [|reflexivity];
+      apply must_accept_validates in Em as [u0 [s0 [l0 [E _]]]]; congruence.
   Qed.
 End S.
 
 Theorem spec_model : forall i, spec i (model i) = true.
 Proof.
-  intros [d cs t reqs]. cbn [model spec].
+  intros [d ts cs t reqs]. cbn [model spec].
   induction reqs as [|x reqs IH]; cbn [map spec_list]; [reflexivity|].
   rewrite spec_out_model, IH. reflexivity.
 Qed.
 
 (* a really signed hint of another issuer - e.g. another host of the same provider - is rejected *)
-Theorem foreign_issuer_rejected pmatch uparse d cs (x : ereq) iss ex sub azp :
-  r_tok x = TSigned iss ex sub azp -> iss <> r_issuer x ->
-  exists s c, end_session pmatch uparse d cs (r_router x) (to_esreq x) = EPage s c None.
+Theorem foreign_issuer_rejected pmatch uparse d ts cs (x : ereq) key iss ex sub azp :
+  r_tok x = TSigned key iss ex sub azp -> iss <> r_issuer x ->
+  exists s c, end_session pmatch uparse d ts cs (r_router x) (to_esreq x) = EPage s c None.
 Proof.
   intros Ht Hn. apply hint_rules. unfold to_esreq, classify. cbn. rewrite Ht.
   destruct (String.eqb iss (r_issuer x)) eqn:E; [apply String.eqb_eq in E; contradiction|reflexivity].
+Qed.
+
+(* a hint signed with a key the storage does not publish while the request is served - never
+   published, or published for an earlier request and withdrawn since - is rejected *)
+Theorem withdrawn_key_rejected pmatch uparse d ts cs (x : ereq) key iss ex sub azp :
+  r_tok x = TSigned key iss ex sub azp -> ~ In key (r_keys x) ->
+  exists s c, end_session pmatch uparse d ts cs (r_router x) (to_esreq x) = EPage s c None.
+Proof.
+  intros Ht Hn. apply hint_rules. unfold to_esreq, classify. cbn. rewrite Ht.
+  destruct (string_in key (r_keys x)) eqn:E; [|rewrite andb_false_r; reflexivity].
+  exfalso. apply Hn. unfold string_in in E. apply existsb_exists in E as [y [Hy He]].
+  apply String.eqb_eq in He. now subst.
 Qed.
 
 (* ---- non-vacuity ---- *)
@@ -287,14 +346,14 @@ Definition ex_pm (g u : string) : pres := if String.eqb u "https://app.example.c
 Definition ex_up (u : string) : option purl := Some {| p_pre := u; p_le := []; p_gt := []; p_frag := None |}.
 
 Example C18_nonvacuous_expired_glob_state :
-  end_session ex_pm ex_up "/logged-out" ex_cs Legacy
+  end_session ex_pm ex_up "/logged-out" TS_Absent ex_cs Legacy
     {| e_hint := HGood true "alice" "web"; e_client := ""; e_uri := "https://app.example.com/out/x";
        e_state := "a b&c"; e_fault := EF_None |}
   = ERedirect "https://app.example.com/out/x?state=a+b%26c" ("alice", "web").
 Proof. vm_compute. reflexivity. Qed.
 
 Example C18_nonvacuous_unregistered :
-  end_session ex_pm ex_up "/logged-out" ex_cs Provider
+  end_session ex_pm ex_up "/logged-out" TS_Absent ex_cs Provider
     {| e_hint := HNone; e_client := "web"; e_uri := "https://evil.example/bye"; e_state := ""; e_fault := EF_None |}
   = EPage 400 "invalid_request" None.
 Proof. vm_compute. reflexivity. Qed.
